@@ -124,7 +124,9 @@ pub fn check_value(v: &Value) -> Vec<Fail> {
     let mraw = if &m == v { raw } else { check_value_raw(&m) };
     let mut out: Vec<Fail> = vec![];
     for f in mraw {
-        let sig = match array_of_compound(&m) {
+        // (the family is looked for anywhere inside the minimal failing value: an array of empty lists decodes
+        // "fine" on its own and only corrupts the sibling that follows it)
+        let sig = match array_of_compound(&m).or_else(|| crate::c05::array_of_compound(&m)) {
             Some(k) => k.to_string(),
             None => f.sig.replace("(reader)", ""),
         };
@@ -172,7 +174,7 @@ pub fn run(ctx: &Ctx) -> Outcome {
     if let Some(p) = &ctx.replay {
         return replay(ctx, p, out);
     }
-    let depth = if ctx.quick() { 2 } else { 3 };
+    let depth = if ctx.quick() { 3 } else { 4 };
     let vals = corpus::values(depth);
     let distinct = Mutex::new(HashSet::<u64>::new());
     let res = par_map(&vals, ctx.threads, |_, v| {
@@ -194,11 +196,7 @@ pub fn run(ctx: &Ctx) -> Outcome {
     // sibling leak: every value as 2nd element of a list after every representative leaf
     // (serializer mode flags must not leak between siblings)
     let reps = corpus::reps();
-    let subjects: Vec<Value> = if ctx.quick() {
-        corpus::leaves().into_iter().chain(corpus::level1().into_iter().step_by(3)).collect()
-    } else {
-        corpus::values(2)
-    };
+    let subjects: Vec<Value> = if ctx.quick() { corpus::values(2) } else { corpus::values(3) };
     let pairs: Vec<(usize, usize)> = (0..subjects.len()).flat_map(|i| (0..reps.len()).map(move |j| (i, j))).collect();
     let res = par_map(&pairs, ctx.threads, |_, (i, j)| {
         let v = Value::List(vec![reps[*j].clone(), subjects[*i].clone()]);
